@@ -3,6 +3,15 @@ sys.path.insert(0, os.path.dirname(os.path.abspath(__file__)))
 import vlib
 
 t0 = time.time()
+# regenerate translator outputs (coq/Gen/*.v are never committed) so that files depending on them build
+import importlib
+for mod in ("c01", "c19", "c20"):
+    try:
+        m = importlib.import_module(mod)
+        if hasattr(m, "regen"):
+            print("setup: regen %s: %s" % (mod, m.regen()))
+    except Exception as e:  # noqa
+        print("setup: regen %s skipped: %r" % (mod, e))
 with vlib.BuildLock():
     vlib.ensure_makefile()
     p = subprocess.run(["timeout", "7200", "make", "-j%d" % vlib.NCPU, "-k"], cwd=vlib.COQ,
